@@ -1,3 +1,4 @@
+pub mod mac;
 pub mod policy;
 pub mod text;
 pub mod wire;
